@@ -29,11 +29,23 @@ ANCHORS = ("Unit.__mul__", "Unit.__truediv__", "_amnt_and_unit_from_term",
 
 
 class OpSpec:
-    def __init__(self, rng, w, idx):
+    def __init__(self, rng, w, idx, sibling_of=None):
         syms = list(w.units)
         self.idx = idx
         r = rng.random()
-        if r < 0.15:
+        if sibling_of is not None and sibling_of.op != "**":
+            # same operator and same two TYPES, other units: a result cached
+            # per type pair instead of per unit pair would be wrong here
+            self.op = sibling_of.op
+            self.k1, self.k2 = sibling_of.k1, sibling_of.k2
+            t1 = w.units[sibling_of.s1].tname
+            t2 = w.units[sibling_of.s2].tname
+            self.s1 = rng.choice([u.sym for u in w.units_of(t1)])
+            self.s2 = rng.choice([u.sym for u in w.units_of(t2)])
+            r = None
+        if r is None:
+            pass
+        elif r < 0.15:
             self.op = "**"
             self.s1 = rng.choice(syms)
             self.k1 = rng.choice("qu")
@@ -172,7 +184,10 @@ def schedule_program(rng, plan, ops, sched):
 def world_group(chk, rng, wi, pending):
     plan, w0 = random_plan(rng)
     nops = rng.randint(10, 40)
-    ops = [OpSpec(rng, w0, j) for j in range(nops)]
+    ops = []
+    for j in range(nops):
+        sib = ops[-1] if ops and rng.random() < 0.3 else None
+        ops.append(OpSpec(rng, w0, j, sibling_of=sib))
     group = dict(wi=wi, results={}, plan=[d.to_json() for d in plan],
                  nops=nops)
     cases = []
